@@ -107,7 +107,8 @@ Iface(d) ==
    type-mismatch verdict is UNSPECIFIED - it is never part of Expected and is removed from the real
    output before judging (Unspecified below); only the operational layer predicts it (model drift). *)
 LitStyles == {"plain", "single", "double"}
-LitClasses == {"true", "false", "null", "tilde", "int", "float", "hex", "text", "empty", "TRUE"}
+\* "tchar" / "fchar": the one-letter texts t and F, which are plain text (a string) although strconv.ParseBool accepts them
+LitClasses == {"true", "false", "null", "tilde", "int", "float", "hex", "text", "empty", "TRUE", "tchar", "fchar"}
 LitKinds == {[name |-> st \o ":" \o cl, style |-> st, cls |-> cl] : st \in LitStyles, cl \in LitClasses}
 ExprKinds == {"expr-str", "expr-num", "expr-bool", "expr-null", "expr-obj", "expr-any", "embed"}
 BorderClasses == {"tilde", "hex", "empty", "TRUE"}
